@@ -220,7 +220,9 @@ func c14Concretise(g c14Gen, rng *rand.Rand) c14Case {
 
 	for i, k := range g.OnError {
 		prefix := map[string]string{"e": "RE", "u": "RU", "x": "RX"}[k]
-		c.Rule.OnError = append(c.Rule.OnError, c14Entry{K: k, Step: c14Name{fmt.Sprintf("%s%d", prefix, i+1)}})
+		c.Rule.OnError = append(c.Rule.OnError, c14Entry{
+			K: k, Step: c14Name{fmt.Sprintf("%s%d", prefix, i+1)}, Cond: k == "e" && rng.Intn(3) == 0,
+		})
 	}
 
 	if len(g.OnError) == 0 && rng.Intn(2) == 0 {
@@ -239,6 +241,39 @@ func c14Concretise(g c14Gen, rng *rand.Rand) c14Case {
 	}
 
 	return c
+}
+
+// c14RealMechanisms: real mechanisms in the catalogue beside the scripted ones, for overrides they refuse.
+func c14RealMechanisms() map[string]any {
+	return map[string]any{
+		"authenticators": []any{map[string]any{"id": "anon", "type": "anonymous"}},
+		"authorizers": []any{map[string]any{"id": "real_remote", "type": "remote", "config": map[string]any{
+			"endpoint": map[string]any{"url": "http://127.0.0.1:1/authz"}, "payload": "{}",
+		}}},
+		"contextualizers": []any{map[string]any{"id": "real_ctx", "type": "generic", "config": map[string]any{
+			"endpoint": map[string]any{"url": "http://127.0.0.1:1/ctx"},
+		}}},
+		"finalizers": []any{
+			map[string]any{"id": "noop", "type": "noop"},
+			map[string]any{"id": "real_cc", "type": "oauth2_client_credentials", "config": map[string]any{
+				"token_url": "http://127.0.0.1:1/token", "client_id": "c", "client_secret": "s",
+			}},
+			map[string]any{"id": "real_header", "type": "header", "config": map[string]any{"headers": map[string]any{"X-A": "a"}}},
+		},
+	}
+}
+
+//nolint:gochecknoglobals
+var c14BadOverrides = []config.MechanismConfig{
+	{"finalizer": "real_cc", "config": map[string]any{"header": map[string]any{"scheme": "Token"}}}, // a header without a name
+	{"finalizer": "real_cc", "config": map[string]any{"header": map[string]any{"name": ""}}},
+	{"finalizer": "real_cc", "config": map[string]any{"cache_ttl": "soon"}},
+	{"authorizer": "real_remote", "config": map[string]any{"cache_ttl": "soon"}},
+	{"authorizer": "real_remote", "config": map[string]any{"no_such_setting": true}},
+	{"contextualizer": "real_ctx", "config": map[string]any{"cache_ttl": "soon"}},
+	{"contextualizer": "real_ctx", "config": map[string]any{"no_such_setting": true}},
+	{"finalizer": "real_header", "config": map[string]any{"headers": map[string]any{}}}, // no header at all
+	{"authenticator": "anon", "config": map[string]any{"no_such_setting": true}},
 }
 
 func c14Execute(c c14Case) []config.MechanismConfig {
@@ -262,6 +297,10 @@ func c14Execute(c c14Case) []config.MechanismConfig {
 			mc = config.MechanismConfig{"authorizer": "does-not-exist"}
 		case "b":
 			mc = config.MechanismConfig{"contextualizer": scripted.Prefix + e.Step.N, "config": map[string]any{"bad": true}}
+			// every second case: an override one of the real mechanisms of the catalogue has to refuse
+			if n := len(c.ID) + int(c.ID[len(c.ID)-1]); n%2 == 1 {
+				mc = c14BadOverrides[(n/2)%len(c14BadOverrides)]
+			}
 		default:
 			mc = config.MechanismConfig{"foo": "bar"}
 		}
@@ -291,7 +330,12 @@ func c14OnError(c c14Case) []config.MechanismConfig {
 	for _, e := range c.Rule.OnError {
 		switch e.K {
 		case "e":
-			out = append(out, config.MechanismConfig{"error_handler": scripted.Prefix + e.Step.N})
+			mc := config.MechanismConfig{"error_handler": scripted.Prefix + e.Step.N}
+			if e.Cond { // a condition that does not hold for the failure the case provokes (an authentication error)
+				mc["if"] = "type(Error) == authorization_error"
+			}
+
+			out = append(out, mc)
 		case "u":
 			out = append(out, config.MechanismConfig{"error_handler": "does-not-exist"})
 		default:
@@ -473,7 +517,7 @@ func c14RunGroup(cases []c14Case, idxs []int, up *client.Upstream, w *trace.Writ
 	proto := cases[idxs[0]]
 	rec := scripted.NewRecorder()
 
-	cfg := map[string]any{}
+	cfg := map[string]any{"mechanisms": c14RealMechanisms()}
 
 	if proto.Def.Present {
 		ex := []any{map[string]any{"authenticator": "s.DA1"}}
